@@ -18,8 +18,8 @@ type C18Script struct {
 	Mode    string           `json:"mode"`    // "write" | "readfrom" | "iocopy"
 	Adapter string           `json:"adapter"` // "IOWriter" | "IOWriteCloser" | "Func"
 	Packets int              `json:"packets"`
-	Tail    int              `json:"tail"` // bytes of a further, incomplete packet (0..187)
-	Salt    int              `json:"salt"` // varies packet contents
+	Tail    int              `json:"tail"`            // bytes of a further, incomplete packet (0..187)
+	Salt    int              `json:"salt"`            // varies packet contents
 	Cuts    []int            `json:"cuts,omitempty"`  // write mode: byte count of each Write call
 	Reads   []parties.ReadOp `json:"reads,omitempty"` // readfrom/iocopy: outcome of each Read call
 	Default string           `json:"default_read,omitempty"`
